@@ -27,7 +27,13 @@ pub fn file_pos(
     snap: &ServerSnapshot,
     doc: lsp_types::TextDocumentPositionParams,
 ) -> (FilePosition, Arc<LineIndex>) {
+    #[cfg(feature = "verif")]
+    let _released = crate::verif::OnDrop(crate::verif::Ev::VfsReadReleased("file_pos"));
+    #[cfg(feature = "verif")]
+    crate::verif::point(crate::verif::Ev::VfsReadWant("file_pos"));
     let vfs = snap.vfs.read().unwrap();
+    #[cfg(feature = "verif")]
+    crate::verif::point(crate::verif::Ev::VfsReadAcquired("file_pos"));
     let path = UrlExt::to_file_path(&doc.text_document.uri);
     let file_id = vfs.file_for_path(&path).unwrap();
     let line_index = snap.analysis.line_index(file_id);
@@ -40,7 +46,13 @@ pub fn file_range(
     doc: lsp_types::TextDocumentIdentifier,
     lsp_range: lsp_types::Range,
 ) -> (FileRange, Arc<LineIndex>) {
+    #[cfg(feature = "verif")]
+    let _released = crate::verif::OnDrop(crate::verif::Ev::VfsReadReleased("file_range"));
+    #[cfg(feature = "verif")]
+    crate::verif::point(crate::verif::Ev::VfsReadWant("file_range"));
     let vfs = snap.vfs.read().unwrap();
+    #[cfg(feature = "verif")]
+    crate::verif::point(crate::verif::Ev::VfsReadAcquired("file_range"));
     let path = UrlExt::to_file_path(&doc.uri);
     let file_id = vfs.file_for_path(&path).unwrap();
     let line_index = snap.analysis.line_index(file_id);
@@ -52,7 +64,13 @@ pub fn file(
     snap: &ServerSnapshot,
     doc: lsp_types::TextDocumentIdentifier,
 ) -> (FileId, Arc<LineIndex>) {
+    #[cfg(feature = "verif")]
+    let _released = crate::verif::OnDrop(crate::verif::Ev::VfsReadReleased("file"));
+    #[cfg(feature = "verif")]
+    crate::verif::point(crate::verif::Ev::VfsReadWant("file"));
     let vfs = snap.vfs.read().unwrap();
+    #[cfg(feature = "verif")]
+    crate::verif::point(crate::verif::Ev::VfsReadAcquired("file"));
     let path = UrlExt::to_file_path(&doc.uri);
     let file_id = vfs.file_for_path(&path).unwrap();
     let line_index = snap.analysis.line_index(file_id);
